@@ -16,6 +16,8 @@ PUNCT_NAMES = ['TestQ/GET_/users?page=2', 'TestQ/GET_/users_page=2', 'TestW/C:\\
                'TestE/emoji_\U0001F600', 'TestT/a~b', "TestT/it's", 'TestC/a,b;c', 'TestEq/k=v&x=1', 'TestPl/a+b', 'TestAt/user@host',
                'TestBr/{x}', 'TestPa/(x)', 'TestD/$HOME', 'TestBt/`cmd`', 'TestEx/wow!', 'TestCa/a^b', 'TestJp/\u65e5\u672c\u8a9e', 'TestNb/a\u00a0b',
                'TestCo/e\u0301', 'TestCo/\u00e9']
+FAMILIES = [['TestA', 'TestAB', 'TestA/x', 'TestA/x/y', 'TestA/x#01', 'TestA/case_2', 'TestA/x_-_1'], ['TestB', 'TestB/sub_case'],
+            ['Test1', 'Test10', 'Test01'], ['TestN/case_9', 'TestN/case_10', 'TestN/case_100'], ['TestZ/v1', 'TestZ/v01', 'TestZ/a/b/c']]
 PCT_NAMES = ['TestP/100%_done', 'TestQ/%d', 'TestR/50%s']
 UNRECOGNISED = ['FuzzX/seed#0', 'BenchmarkY', 'ExampleZ']
 
@@ -99,6 +101,13 @@ class Gen:
         if 'unrec' in allow:
             pool += UNRECOGNISED
         self.r.shuffle(pool)
+        if k > 1 and self.r.random() < 0.3:
+            # names that are prefixes of each other (a test, its subtests, its longer-named neighbour) in ONE
+            # world: whatever is keyed by test name must be keyed by the whole name
+            fam = [n for n in self.r.choice(FAMILIES) if n in pool]
+            self.r.shuffle(fam)
+            fam = fam[:self.r.randint(2, max(2, k))]
+            pool = fam + [n for n in pool if n not in fam]
         return [n.encode() for n in pool[:k]]
 
     # ---------- JSON documents
